@@ -48,10 +48,13 @@ THEOREM_CLASSES = {
     "C05_analyzer_complete_flow": "corollary",
     "C05_analyzer_complete_names": "corollary",
     "C05_inrange_is_representability": "corollary",
+    "C05_scraped_checks_needed": "tripwire",
 }
 UNPROVED = [
     "wrongly typed arguments (argument convertibility): rule table rows only (tests)",
     "assignment to a constant through a function DEFINITION: `function v() ... end` over a <const>/<comptime> function-pointer VARIABLE is in the model (FuncAssign, covered by C05_names_sound / C05_analyzer_sound_partial); over a FIELD of a <const> record (`function r.cb() ... end`) it is a rule table row only (the mini-AST has no records)",
+    "function definition over a DECLARED function (`local function f() end function f() end`, also after <forwarddecl>): in the model (FuncAssign over a function symbol is accepted, as the funcdeclared/forwarddecl exemption of 1fc2b5c does) only inside the function that declares f. The compiler then `promotes` f to a local variable; that state change is NOT modelled and DFun carries no owner, so rule_names accepts a redefinition reached from a nested function and knows nothing of nested references before/after a redefinition: the generator keeps out of that region, it is judged by four RAW_TABLE rows only (two of them open defects, known_findings + proposed_repairs/06). Redefinition with a different signature is not modelled (zero-parameter functions only)",
+    "scraped repair flags: the six pins (gen_*_checked / _fixed / _present) enter the soundness proofs by rewriting; C05_scraped_checks_needed shows for each pinned DECISION FUNCTION (break_ok_pol, recorded_case_pol via fall_errs, forced_errs_pol, agoto_pol, conv_errs_pol, funcdef_errs_pol) a concrete input let through with the check off and refused with it on; it is a decision-level tripwire, NOT a whole-program refutation of soundness under the other policy",
     "arithmetic on pointers or incompatible types: rule table rows only (tests); the mini-AST has no typed expressions",
     "constants that do not fit: integer -> integer constants over the scraped IntegralType table only; float and enum constants are not covered",
     "constant index on an array of length 0 (`[0]T`): the rule follows the compiler's convention and accepts every non-negative index",
@@ -171,6 +174,12 @@ RULE_TABLE = [
 RAW_TABLE = [
     ("funcdef-over-const-variable", "local function a(): integer return 1 end\nlocal fp: function(): integer <const> = a\nfunction fp(): integer return 2 end\nprint(fp())\n", (3,)),
     ("funcdef-over-const-field", "local function a(): integer return 1 end\nlocal R = @record{cb: function(): integer}\nlocal r: R <const> = {cb = a}\nfunction r.cb(): integer return 2 end\nprint(r.cb())\n", (4,)),
+    # a redefined local function is a local variable of its function (analyzer.lua "promote to variable"): no other
+    # function may reach it.  The mini-AST keeps out of this region (DFun has no owner, promotion is not modelled)
+    ("redefine-function-from-nested-function", "local function host()\n  local function f() end\n  local function g()\n    function f() end\n  end\n  g() f()\nend\nhost()\n", (4,)),
+    ("nested-use-before-function-redefinition", "local function host()\n  local function f() end\n  local function g()\n    f()\n  end\n  function f() end\n  g() f()\nend\nhost()\n", (4, 6)),
+    ("nested-use-after-function-redefinition", "local function host()\n  local function f() end\n  function f() end\n  local function g()\n    f()\n  end\n  g()\nend\nhost()\n", (5,)),
+    ("function-redefinition-calls-itself", "local function host()\n  local function f() end\n  function f() f() end\n  f()\nend\nhost()\n", (3,)),
     ("comptime-index-in-poly", "local a: [4]integer\nlocal function f(i: integer <comptime>) return a[i] end\nprint(f(4))\n", (2, 3)),
 ]
 TABLE_EMBEDDINGS = {
@@ -186,7 +195,7 @@ def from_json(b):
 
     def st(s):
         t = s[0]
-        if t == 'func': return ('func', s[1], list(s[2]), blk(s[3]))
+        if t == 'func': return ('func', s[1], list(s[2]), blk(s[3])) + tuple(s[4:])
         if t == 'funcassign': return ('funcassign', s[1], blk(s[2]))
         if t in ('do', 'while', 'repeat', 'for', 'defer'): return (t, blk(s[1]))
         if t == 'if': return ('if', blk(s[1]), blk(s[2]))
@@ -252,6 +261,7 @@ def correspond(ctx):
         cases.append((focus, None, body, emb))
 
     srcs = []
+    texts = []
     model_lines = []
     macro_lines = []
     for n, (stream, key, body, emb) in enumerate(cases):
@@ -261,6 +271,7 @@ def correspond(ctx):
         with open(p, "w") as f:
             f.write(text)
         srcs.append(p)
+        texts.append(text)
         model_lines.append(mtxt)
     rc, mout, merr = vlib.sh([driver], input="\n".join(model_lines) + "\n", timeout=1800)
     ml = mout.split("\n")
@@ -390,7 +401,9 @@ def correspond(ctx):
         "distinct_nontrivial": len(nontrivial),
         "rule": "cases = fixed witness of the known defect (2 embeddings) + corpus + random programs of the mini-AST (focus mixed/flow/names/labels/consts) each printed in one of 6 embeddings (round robin); non-trivial = distinct (program, embedding) that break at least one rule",
         "samples": [model_lines[0][:200], model_lines[len(cases) // 2][:200], model_lines[-1][:200]],
-        "distribution": {"streams": dist, "embeddings": per_emb, "accepted": n_acc, "rejected": n_rej, "diagnostic_kinds": kinds},
+        "distribution": {"streams": dist, "embeddings": per_emb, "accepted": n_acc, "rejected": n_rej, "diagnostic_kinds": kinds,
+                         "function_redefinitions": sum(1 for x in texts if re.search(r"(?m)^\s*function f\d+\(\)", x)),
+                         "forward_declarations": sum(1 for x in texts if "<forwarddecl>" in x)},
         "oracle_failures": len(oracle_fail),
         "accepted_breaking_only_the_full_label_rules": n_full_only,
         "verdict_mismatches": len(mism),
@@ -408,7 +421,7 @@ def remap_types(b, usable):
     for s in b:
         t = s[0]
         if t == 'conv': out.append(('conv', usable[s[1]], s[2]) + tuple(s[3:]))
-        elif t == 'func': out.append(('func', s[1], s[2], remap_types(s[3], usable)))
+        elif t == 'func': out.append(('func', s[1], s[2], remap_types(s[3], usable)) + tuple(s[4:]))
         elif t == 'funcassign': out.append(('funcassign', s[1], remap_types(s[2], usable)))
         elif t in ('do', 'while', 'repeat', 'for', 'defer'): out.append((t, remap_types(s[1], usable)))
         elif t == 'if': out.append(('if', remap_types(s[1], usable), remap_types(s[2], usable)))
